@@ -55,6 +55,17 @@ CHECKS['C14'] = dict(
     technique="Coq printer model with byte-exact two-mode correspondence + theorem for unwrapped atoms + clingo.ast flatten oracle",
     design="6.C14")
 
+CHECKS['C13'] = dict(
+    text="Coq model of get_symbols (__convert_signature, __convert_attribute, Symbol.get_arity) and of the argument list convert_entity "
+         "gives an atom; theorems for every entity signature: reported flat arity = number of arguments of an atom built from the "
+         "signature, keys are reported and are a prefix, position i of the report describes argument i. Tie: for every signature of every "
+         "specification of the stream the model's Symbol (structure and both arities) equals the implementation's. That every emitted atom "
+         "has a single arity equal to the reported one (flat and nested) and that every non-auxiliary predicate is reported is decided per "
+         "program by the oracle (clingo.ast over both printing modes); partial until the compile model proves atoms are built from signatures.",
+    note="Trusted: Coq kernel; clingo.ast; serialisation of SignatureManager.signatures; inflect results read from the objects.",
+    technique="Coq model of the symbol table with arity/position theorems + per-signature correspondence + clingo.ast arity oracle in both modes",
+    design="6.C13")
+
 NOT_YET = {}
 
 
